@@ -322,7 +322,9 @@ class EnsembleOptimizer:
                 else gradients.constraints[:, mask]
             )
         )
-        return (
+        # Selecting columns with a mask may yield Fortran-ordered arrays, make
+        # sure that the rows handed to the optimizer are contiguous:
+        return np.ascontiguousarray(
             np.expand_dims(weighted_objective_gradient, axis=0)
             if constraint_gradients is None
             else np.vstack((weighted_objective_gradient, constraint_gradients))
